@@ -143,6 +143,8 @@ theorem attr_loop_reset_only_duplicate_mp (two : Bool) (buf : Bytes) (attrEnd : 
 
 /-! ## 7. Non-vacuity and witnesses -/
 
+set_option maxRecDepth 20000
+
 def codecV4 : Codec := ⟨false, false, [(65537, false)]⟩
 
 /-- ORIGIN, empty AS_PATH, NEXT_HOP 10.0.0.1, COMMUNITIES, NLRI 10/8 -/
@@ -175,9 +177,9 @@ example : USpec.check codecV4 false uOk [.flags 3 0x80]
 /-- the hypotheses of `update_validated_ok` are satisfiable by a message with a recorded (discard-class) error:
     MED of 3 bytes -/
 def uMed : CUpdate := { uOk with attrs := uOk.attrs ++ [⟨0x80, 4, [0, 0, 0, 5]⟩] }
-example : ∃ n r mr u mu attrs errs,
-    tryParse noHypDec .debug codecV4 (render codecV4 uMed [.data 4 [0, 0, 5]]) = .msg n (.update r mr u mu attrs errs)
-      ∧ errs = [(4, 0x80)] ∧ ¬ (attrs.any (·.code == 4)) := by
-  refine ⟨_, _, _, _, _, _, _, by decide, by decide, by decide⟩
+theorem nonvacuous_discard :
+    tryParse noHypDec .debug codecV4 (render codecV4 uMed [.data 4 [0, 0, 5]]) =
+      .msg 52 (.update (some ⟨65537, some [10, 0, 0, 1], [⟨0, 8, [10, 0, 0, 0]⟩]⟩) none none none
+        [⟨1, 0x40, .val 0⟩, ⟨2, 0x40, .bin []⟩, ⟨8, 0xc0, .bin [255, 255, 255, 1]⟩] [(4, 0x80)]) := by decide
 
 end Rbgp.Wire.UProps
